@@ -170,6 +170,18 @@ def run(ck):
                 ck.proved("G-REFUSE", fn, f"buffer shorter than the header is refused ({tag})", f"normal return implies len(data) >= {CF.header_len(E, S)}")
             else:
                 ck.refuted("G-REFUSE", fn, f"buffer shorter than the header is refused ({tag})", f"accepted: {m}")
+            # the converse: the too-short refusal is taken only for buffers that really are shorter than this header
+            for x in it.raises:
+                if x["caught"] or x["kind"] != "explicit" or not x["exc"].endswith("BytesTooShortError"):
+                    continue
+                cons = f"`{x['text'][:50]}` refuses only buffers shorter than the {CF.header_len(E, S)}-octet header ({tag})"
+                st, m = D.prove(x["facts"], binop("<", length(data), N))
+                if st == "proved":
+                    ck.proved("G-REFUSE", fn, cons, "path condition implies len(data) < header length")
+                elif st == "refutable":
+                    ck.refuted("G-REFUSE", fn, cons, f"a complete header is refused as too short: {m}", witness=m)
+                else:
+                    ck.unknown("G-REFUSE", fn, cons, str(m))
             D.check_xbuf(ck, it, fn + f" [{tag}]")
             D.check_xdecl(ck, it, fn + f" [{tag}]", "data", N)
             D.check_escape(ck, it, fn + f" [{tag}]", allowed=("ValueError", P.cls(f"{CF.DEFS}.UnsupportedCfdpVersion").qual))
